@@ -326,7 +326,9 @@ class G2:
             return ("struct", self.name(True), fl, bits // 8, [(self.name(), self.gtype(1)) for _ in range(r.randrange(0, 4))])
         if kind == "import":
             # `pub import` re-exports (the first-generation tree does not record the flag; see strip_import_flags)
-            return ("import", r.choice(["a.pn", "lib/b.pn", "core:text", "vendor:libc/stdlib.pn", "x y.pn"]),
+            return ("import", r.choice(["a.pn", "lib/b.pn", "core:text", "vendor:libc/stdlib.pn", "x y.pn", "./a.pn", "././a.pn", "./././lib/b.pn", "../a.pn",
+                                        "../../a.pn", "lib/./b.pn", "lib/../a.pn", "lib//b.pn", "/abs/a.pn", "a.pn/", ".", "..", "./", "core:./text",
+                                        "vendor:./libc", " a.pn", "a.pn ", "A.PN", "a", "a.pn.pn", "\u00fc.pn"]),
                     ("Public",) if "Public" in fl else ())
         raise ValueError(kind)
 
